@@ -2,8 +2,8 @@
 (* C19: what the table post-processing scripts of csg/share/scripts/inverse are DOCUMENTED to
    compute (help texts / property statement), written as operators over exact tables.
 
-   A table is [y |-> Seq(Rat), f |-> Seq({"i","o","u"})] on the uniform grid
-   x_k = (x0 + k - 1) * h (k = 1..n, x0 integer, h rational).  Distributions of the two
+   A table is [y |-> Seq(Rat), f |-> Seq({"i","o","u"})] on the grid
+   x_k = (x0 + g[k]) * h (k = 1..n, x0 and the offsets g integer, h rational; equidistant or not).  Distributions of the two
    logarithmic scripts live on the LOG LATTICE: a value is 2^e (e integer) or 0 (e = Z), and
    kT = c / ln 2 with c rational, so kT * ln(2^a / 2^b) = c * (a - b) exactly.
 
@@ -23,7 +23,13 @@ EXTENDS Integers, Sequences, FiniteSets, CArith, Rat
 Z == -1000                               \* exponent of the distribution value 0
 Tab(y, f) == [y |-> y, f |-> f]
 Nn(t) == Len(t.y)
-GX(x0, h, k) == RMul(RI(x0 + k - 1), h)  \* abscissa of point k
+\* abscissae: x_k = (x0 + g[k]) * h with integer offsets g (g[1] = 0, strictly increasing; uniform: g[k] = k-1,
+\* non-uniform: gaps 1..3).  No help text restricts a table tool to equidistant tables.
+XSeq(x0, h, g) == [k \in 1..Len(g) |-> RMul(RI(x0 + g[k]), h)]
+UniformG(n) == [k \in 1..n |-> k - 1]
+RECURSIVE ExpandIv(_, _, _)              \* position j (1..g[n]) of the unit lattice -> index of the interval that contains it
+ExpandIv(g, lo, hi) == IF lo = hi THEN [i \in 1..(g[lo + 1] - g[lo]) |-> lo]
+                       ELSE LET mid == (lo + hi) \div 2 IN ExpandIv(g, lo, mid) \o ExpandIv(g, mid + 1, hi)
 SetMax(S) == CHOOSE x \in S : \A y \in S : y <= x
 SetMin(S) == CHOOSE x \in S : \A y \in S : x <= y
 RMinSet(S) == CHOOSE a \in S : \A b \in S : RLe(a, b)
@@ -121,8 +127,8 @@ BiAccept(e, c, mk, oy, of) ==
    --on-x: the same on the x column                                                           *)
 LinearOp(t, a, b, wf) ==
   Exact([k \in 1..Nn(t) |-> IF wf = "" \/ t.f[k] = wf THEN RAdd(RMul(a, t.y[k]), b) ELSE t.y[k]], t.f)
-LinearOpX(t, x0, h, a, b, wf) ==
-  [k \in 1..Nn(t) |-> IF wf = "" \/ t.f[k] = wf THEN RAdd(RMul(a, GX(x0, h, k)), b) ELSE GX(x0, h, k)]
+LinearOpX(t, xs, a, b, wf) ==
+  [k \in 1..Nn(t) |-> IF wf = "" \/ t.f[k] = wf THEN RAdd(RMul(a, xs[k]), b) ELSE xs[k]]
 
 (* ------------------------------------------------------------------------------------------
    table_combine.pl   "combines two tables with a certain operation": = + - * / d d2 x,
@@ -169,9 +175,12 @@ AddPot(t1, t2) ==
 
 (* table_scale.pl  "applies a prefactor ... interpolated linearly between prefactor1 and
    prefactor2" over the table                                                                 *)
-Scale(t, p1, p2) ==
-  LET n == Nn(t)
-  IN Exact([k \in 1..n |-> RMul(t.y[k], RAdd(RMul(p1, RN(n - k, n - 1)), RMul(p2, RN(k - 1, n - 1))))], t.f)
+Scale(t, xs, p1, p2) ==      \* "interpolated linearly": along the point index (script) or along x - the same on an
+  LET n == Nn(t)            \* equidistant table, both admitted on a non-equidistant one
+      byidx(k) == RMul(t.y[k], RAdd(RMul(p1, RN(n - k, n - 1)), RMul(p2, RN(k - 1, n - 1))))
+      w(k) == RDiv(RSub(xs[k], xs[1]), RSub(xs[n], xs[1]))
+      byx(k) == RMul(t.y[k], RAdd(RMul(p1, RSub(RI(1), w(k))), RMul(p2, w(k))))
+  IN Out([k \in 1..n |-> byidx(k)], t.f, {<<k, byx(k)>> : k \in {j \in 1..n : byx(j) # byidx(j)}}, {}, {}, FALSE)
 
 (* dist_adjust.pl  values smaller 0 are replaced with 0 *)
 DistAdjust(t) == Exact([k \in 1..Nn(t) |-> IF t.y[k][1] < 0 THEN RZero ELSE t.y[k]], t.f)
@@ -182,37 +191,55 @@ ChangeFlag(t) == Exact(t.y, [k \in 1..Nn(t) |-> IF t.f[k] = "o" THEN "i" ELSE t.
 (* ------------------------------------------------------------------------------------------
    table_integrate.pl  "calculates the integral of a table", trapezoid rule, --from left|right
    "to define the zero point"; --sphere: integrand times r^2; --with-S: integrand + 2kT/r     *)
-IntPre(t, x0, h, mode, kt) ==
+IntPre(t, xs, mode, kt) ==
   [k \in 1..Nn(t) |-> CASE mode = "plain" -> t.y[k]
-                        [] mode = "sphere" -> RMul(t.y[k], RSq(GX(x0, h, k)))
-                        [] mode = "S" -> RAdd(t.y[k], RDiv(RMul(RI(2), kt), GX(x0, h, k)))]
-IntegrateY(g, h, from) ==
-  LET n == Len(g)
-      hh == RMul(h, <<1, 2>>)
+                        [] mode = "sphere" -> RMul(t.y[k], RSq(xs[k]))
+                        [] mode = "S" -> RAdd(t.y[k], RDiv(RMul(RI(2), kt), xs[k]))]
+\* trapezoid of interval k for general gaps: (x_(k+1) - x_k) * (f_k + f_(k+1)) / 2
+Trapez(f, xs, k) == RMul(RMul(RSub(xs[k + 1], xs[k]), <<1, 2>>), RAdd(f[k], f[k + 1]))
+IntegrateY(f, xs, from) ==
+  LET n == Len(f)
       RECURSIVE L(_), R(_)
-      L(k) == IF k = 1 THEN RZero ELSE RAdd(L(k - 1), RMul(hh, RAdd(g[k], g[k - 1])))
-      R(k) == IF k = n THEN RZero ELSE RSub(R(k + 1), RMul(hh, RAdd(g[k + 1], g[k])))
+      L(k) == IF k = 1 THEN RZero ELSE RAdd(L(k - 1), Trapez(f, xs, k - 1))
+      R(k) == IF k = n THEN RZero ELSE RSub(R(k + 1), Trapez(f, xs, k))
   IN [k \in 1..n |-> IF from = "left" THEN L(k) ELSE R(k)]
-Integrate(t, x0, h, from, mode, kt) == Exact(IntegrateY(IntPre(t, x0, h, mode, kt), h, from), t.f)
+Integrate(t, xs, from, mode, kt) == Exact(IntegrateY(IntPre(t, xs, mode, kt), xs, from), t.f)
 \* local form: zero at the chosen end and trapezoid increments
-IntegrateOK(g, h, from, oy) ==
-  /\ Len(oy) = Len(g)
-  /\ oy[IF from = "left" THEN 1 ELSE Len(g)] = RZero
-  /\ \A k \in 1..(Len(g) - 1) : RSub(oy[k + 1], oy[k]) = RMul(RMul(h, <<1, 2>>), RAdd(g[k], g[k + 1]))
+IntegrateOK(f, xs, from, oy) ==
+  /\ Len(oy) = Len(f)
+  /\ oy[IF from = "left" THEN 1 ELSE Len(f)] = RZero
+  /\ \A k \in 1..(Len(f) - 1) : RSub(oy[k + 1], oy[k]) = Trapez(f, xs, k)
 
-(* csg_resample --type linear --derivative on the midpoint grid: slope of the piecewise linear
-   interpolant on every interval (n-1 values at x_k + h/2).  Flag of a midpoint: the flag of
-   one of its two neighbours.                                                                *)
-DiffY(y, h) == [k \in 1..(Len(y) - 1) |-> RDiv(RSub(y[k + 1], y[k]), h)]
-Differentiate(t, h) ==
-  LET m == Nn(t) - 1
-  IN Out(DiffY(t.y, h), [k \in 1..m |-> t.f[k + 1]], {}, {},
-         {<<k, <<t.f[k], t.f[k + 1]>>>> : k \in {j \in 1..m : t.f[j] # t.f[j + 1]}}, FALSE)
+(* csg_resample --type linear --derivative on the half-step grid (x0 + j - 1/2)*h, j = 1..g[n]
+   (the output grid of csg_resample is equidistant; every such point lies strictly inside one
+   interval of the input table, equidistant or not): slope of the piecewise linear interpolant
+   on that interval.  Flag of such a point: the flag of one of the two ends of its interval.  *)
+DiffY(y, xs) == [k \in 1..(Len(y) - 1) |-> RDiv(RSub(y[k + 1], y[k]), RSub(xs[k + 1], xs[k]))]
+OnHalfGrid(v, g) == LET iv == ExpandIv(g, 1, Len(g) - 1) IN [j \in 1..Len(iv) |-> v[iv[j]]]
+Differentiate(t, xs, g) ==
+  LET iv == ExpandIv(g, 1, Len(g) - 1)
+      d == DiffY(t.y, xs)
+      m == Len(iv)
+  IN Out([j \in 1..m |-> d[iv[j]]], [j \in 1..m |-> t.f[iv[j] + 1]], {}, {},
+         {<<j, <<t.f[iv[j]], t.f[iv[j] + 1]>>>> : j \in {i \in 1..m : t.f[iv[i]] # t.f[iv[i] + 1]}}, FALSE)
+(* csg_resample --grid <the grid of the input table> [--derivative]: "Change grid and interval of
+   any sort of table files"; on the grid of the input nothing changes: values (interpolating
+   splines pass through the knots) and, "preserve the flag column semantics", the flag of every
+   point - whatever the step (decimal steps 0.05, 0.1, 0.01*k are not exact in binary, the output
+   grid is accumulated).  Derivative of the linear spline at a knot: slope of either adjacent
+   interval (two-valued), flags again the input's.                                            *)
+ResampleSame(t, xs) ==
+  LET n == Nn(t)
+      d == DiffY(t.y, xs)
+  IN Exact(t.y, t.f) @@
+     [d |-> Out([k \in 1..n |-> IF k < n THEN d[k] ELSE d[n - 1]], t.f,
+                {<<k, d[k - 1]>> : k \in {j \in 2..(n - 1) : d[j - 1] # d[j]}}, {}, {}, FALSE)]
+
 \* "integration and differentiation being inverse to each other": derivative of the integral of a
 \* table = the table's linear interpolant at the midpoints, whatever the zero point
 MidAvg(y) == [k \in 1..(Len(y) - 1) |-> RMul(<<1, 2>>, RAdd(y[k], y[k + 1]))]
 RECURSIVE CumSum(_, _, _)
-CumSum(d, h, k) == IF k = 0 THEN RZero ELSE RAdd(CumSum(d, h, k - 1), RMul(h, d[k]))
+CumSum(d, xs, k) == IF k = 0 THEN RZero ELSE RAdd(CumSum(d, xs, k - 1), RMul(RSub(xs[k + 1], xs[k]), d[k]))
 
 (* potential_shift.pl  "shifts the whole potential by minimum (bonded potentials) or last
    value (non-bonded potentials)".  Minimum: of the 'i' points (script) or of all points (the
@@ -288,20 +315,19 @@ ExFDoc(fn, C, x0, y0, m, x) ==
     [] fn = "sasha" -> LET b == RSub(x0, RDiv(RMul(RI(2), y0), m))
                            a == RDiv(RSq(m), RMul(RI(4), y0))
                        IN RMul(a, RSq(RSub(x, b)))
-Extrapolate(t, h, fn, region, A, C, fu) ==
+Extrapolate(t, xs, fn, region, A, C, fu) ==
   LET n == Nn(t)
       fi == FirstI(t)
       la == LastI(t)
-      ah == RMul(RI(A), h)
       doL == region \in {"left", "leftright"}
       doR == region \in {"right", "leftright"}
-      ml == IF fn = "constant" THEN RZero ELSE RDiv(RSub(t.y[fi + A], t.y[fi]), ah)
-      yl == [k \in 1..n |-> IF doL /\ k < fi THEN ExF(fn, C, t.y[fi], ml, RMul(RI(k - fi), h)) ELSE t.y[k]]
+      ml == IF fn = "constant" THEN RZero ELSE RDiv(RSub(t.y[fi + A], t.y[fi]), RSub(xs[fi + A], xs[fi]))
+      yl == [k \in 1..n |-> IF doL /\ k < fi THEN ExF(fn, C, t.y[fi], ml, RSub(xs[k], xs[fi])) ELSE t.y[k]]
       mr == IF fn = "constant" THEN RZero
             ELSE IF fn = "periodic"
-                 THEN (IF la = n THEN RZero ELSE RDiv(RSub(yl[1], t.y[la]), RMul(RI(n - la), h)))
-                 ELSE RDiv(RSub(t.y[la], t.y[la - A]), ah)
-  IN Exact([k \in 1..n |-> IF doR /\ k > la THEN ExF(fn, C, t.y[la], mr, RMul(RI(k - la), h)) ELSE yl[k]],
+                 THEN (IF la = n THEN RZero ELSE RDiv(RSub(yl[1], t.y[la]), RSub(xs[n], xs[la])))
+                 ELSE RDiv(RSub(t.y[la], t.y[la - A]), RSub(xs[la], xs[la - A]))
+  IN Exact([k \in 1..n |-> IF doR /\ k > la THEN ExF(fn, C, t.y[la], mr, RSub(xs[k], xs[la])) ELSE yl[k]],
            [k \in 1..n |-> IF fu /\ ((doL /\ k < fi) \/ (doR /\ k > la)) THEN "i" ELSE t.f[k]])
 \* domain of the documented formulas
 ExtrapolateDefined(t, fn, region, A) ==
@@ -315,16 +341,16 @@ ExtrapolateDefined(t, fn, region, A) ==
 (* potential_extrapolate.sh  "extrapolates a potential in the correct way depending on its
    type": left with lfct, then right with rfct; defaults exponential/constant (non-bonded,
    right with one average point), linear/linear (bond, angle), linear/periodic (dihedral)   *)
-PotExtrapolate(t, h, type, lf, rf, A, C) ==
-  LET L == Extrapolate(t, h, lf, "left", A, C, TRUE)
+PotExtrapolate(t, xs, type, lf, rf, A, C) ==
+  LET L == Extrapolate(t, xs, lf, "left", A, C, TRUE)
       t2 == Tab(L.y, L.f)
-  IN Extrapolate(t2, h, rf, "right", IF type = "non-bonded" THEN 1 ELSE A, C, TRUE)
+  IN Extrapolate(t2, xs, rf, "right", IF type = "non-bonded" THEN 1 ELSE A, C, TRUE)
 PotDefaultR(type) == CASE type = "non-bonded" -> "constant" [] type = "dihedral" -> "periodic" [] OTHER -> "linear"
 
 (* table_get_value.pl  "print the y value of x, which is closest to X"; tie: either *)
-GetValue(t, x0, h, X) ==
+GetValue(t, xs, X) ==
   LET n == Nn(t)
-      dist(k) == RAbs(RSub(GX(x0, h, k), X))
+      dist(k) == RAbs(RSub(xs[k], X))
       best == {k \in 1..n : \A j \in 1..n : RLe(dist(k), dist(j))}
   IN [kind |-> "scalar", v |-> t.y[SetMax(best)], alt |-> {t.y[k] : k \in best} \ {t.y[SetMax(best)]}]
 
